@@ -69,7 +69,7 @@ def classify_amount(fn, t):
         if a[0] == "field" and a[2] == "0" and is_call(a[1], "calculate_collect_reward"):
             kinds.add("reward")
             continue
-        if a[0] == "param" and a[1] in ("amount_a", "amount_b") and fn.path.endswith(("perform_swap", "perform_swap_v2")):
+        if a[0] == "field" and a[2] in ("amount_a", "amount_b") and is_param(a[1], "swap_update") and fn.path.endswith(("update_and_swap_whirlpool", "update_and_swap_whirlpool_v2")):
             kinds.add("swap-output")
             continue
         if a[0] == "field" and a[2] in ("amount_a", "amount_b") and is_param(a[1], "swap_update_one") or a[0] == "field" and a[2] in ("amount_a", "amount_b") and is_param(a[1], "swap_update_two"):
